@@ -124,20 +124,23 @@ claim("C02",
 EXTRA_TECH = {
  "C01": "; string-template normalisation (concatenation / fmt.Sprintf / helper) of the serving network name; accessor bit-placement model of the NAS IE types used by the constructors; history-independence (shared-state reachability) of message construction",
  "C02": "; history-independence (shared-state reachability over VTA) of the build-and-encode wrappers and builders; accessor bit-placement model of the NAS IE types",
- "C03": "; frozen TS 38.413 schema table (5630 rows: field order, constraint tags, Go types, constants) compared with go/types; per-path (phi-resolved) enumeration of the string primitives' preludes for the length-determinant offset rule (X.691 10.9.3.3/10.9.3.5)",
- "C04": "; loop-carried accumulator analysis of the fragment loops (only extended, never replaced); string length-determinant offset rule on the decoder side",
- "C05": "; shared-state reachability (no package-level cache / scratch buffer below the derivation functions); string-template check of the serving network name",
- "C06": "; composed bit-level state transformers of the security.Count methods (effects of successive stores and helper calls composed, so the summary does not depend on the helper split)",
+ "C03": "; no-write-to-input and unsigned-underflow obligations of the encoder (interval analysis through math/bits ranges and one-line helpers); frozen TS 38.413 schema table (5630 rows: field order, constraint tags, Go types, constants) compared with go/types; per-path (phi-resolved) enumeration of the string primitives' preludes for the length-determinant offset rule (X.691 10.9.3.3/10.9.3.5)",
+ "C04": "; entry-point rule (a pre-check in front of the codec makes the verdict undecided); loop-carried accumulator analysis of the fragment loops (only extended, never replaced); string length-determinant offset rule on the decoder side",
+ "C05": "; abort-condition classification of the derivation (error tests only; MAC check inputs); shared-state reachability (no package-level cache / scratch buffer below the derivation functions); string-template check of the serving network name",
+ "C06": "; interprocedural path enumeration (the walker descends into same-package helpers, parameters rendered as the caller's arguments); composed bit-level state transformers of the security.Count methods (effects of successive stores and helper calls composed, so the summary does not depend on the helper split)",
  "C07": "; structural rules for the GF(2^64) helpers (MULx bit 63, MULxPOW, MUL indexed/iterative) and loop-carried accumulator analysis of the EIA1 Horner loop",
  "C08": "; freshness (non-aliasing) analysis of the encoder's result buffer; bit-provenance accessor model of the 151 IE value types incl. SetLen value/size rules",
  "C09": "; bit-provenance accessor model of the 151 IE value types (735 Get/Set pairs summarised from SSA): pair agreement, frozen TS 24.501 9.11 layout table, order-sensitive neighbour-destruction rule over the constructors' setter calls, SetLen rules",
  "C11": "; loop unrolling + per-MNC-length merge resolution (Pather.Bind) with interprocedural constant folding for loop-form packing; backward origin tracing of constants reaching hexCharToByte",
- "C12": "; generalised loop recognition (index + k <= len), stop-at-match reachability rule, shared R2.report rule on EstablishPDU's extraction inputs",
+ "C12": "; guard-tightness rule (slice guarded by a bound one octet too strict, incl. inclusive-position helpers); generalised loop recognition (index + k <= len), stop-at-match reachability rule, shared R2.report rule on EstablishPDU's extraction inputs",
  "C13": "; history-independence rule: shared-state reachability (VTA) from all wrappers/builders incl. references loaded from package-level variables, TestPlmn the only documented state",
  "C14": "; scope extended to package ngap; constant-index-under-length-guard prover; signed shift-count obligation list with interval analysis",
  "C15": "; dominance rule that the freshness test guards MAC verification; shared-state reachability of the exported Milenage functions",
  "C16": "; shared-state reachability of UE creation incl. escape analysis of references loaded from package-level variables; configuration-load rule (values not rewritten after parsing)",
- "C18": "; known-grammar rule for decisions delegated to package flag",
+ "C17": "; S-NSSAI constructor rule (length chosen on the SD string being empty, not on its value); accessor model of the NAS IE types (OR-without-clear, carrying additions) as in C09",
+ "C19": "; read-in-loop rule over the procedures and their helpers; the decoder-totality obligations of C14 as a component (fresh-cursor bounds guards)",
+ "C10": "; interprocedural path enumeration (helpers of NASDecode are walked as part of its paths)",
+ "C18": "; endpoint-role and lossy-conversion rule for ConnectToAmf/getNgapIp; credential-role rule; known-grammar rule for decisions delegated to package flag",
  "C20": "; use analysis of references (slices, maps, pointers, structs carrying them) loaded from package-level variables",
 }
 for _pid, _add in EXTRA_TECH.items():
